@@ -382,7 +382,11 @@ class Polynomial:
             self.coefficients[None, ...] * polynomials, axis=tuple(np.array(axes) + 1)
         )
         if singlePoint:
-            return float(result[0])
+            # Only a full evaluation yields a number; along a subset of the axes the
+            # result is the array over the remaining axes.
+            if np.ndim(result[0]) == 0:
+                return float(result[0])
+            return np.array(result[0])
         return np.array(result)
 
     def cardinal(
